@@ -20,7 +20,7 @@ PROPERTY = {
                'flags per site': 'one of the pairs (priority, delete), (allow_new, safe), (delete, allow_new), (priority, safe), each flag absent or any value - symbolic', 'user metadata': 'present on the inner site (symbolic presence)'},
     'outside': ['explicit safe=True below an unsafe ancestor (no !safe tag exists in the loader)', 'documents evaluated from unsafe sources', 'anchors/aliases, comments, styles'],
     'per_split_timeout': {'quick': 600, 'thorough': 1800},
-    'wall_budget': {'quick': 900, 'thorough': 3400},
+    'wall_budget': {'quick': 1500, 'thorough': 7000},
 }
 
 SHAPES = [
